@@ -32,3 +32,14 @@ claim("C09", "DESIGN.md §2 C09",
       "gap are compared with an independent chain model. Histories and schedules are sampled: exploration level.",
       "Server model follows the ElectrumX/LBRY-hub conventions stated in the evidence assumptions; headers are empty so Merkle "
       "verification is skipped here (C08); <=45 ops per history.")
+claim("C16", "DESIGN.md §2 C16",
+      "property-based testing: Hypothesis-built claims/supports/purchases and grammar-generated URLs; round-trip, accessor read-back vs model, plain protobuf parse, reference URL parser; exhaustive enum sweeps",
+      "Claims of all four types are assembled through the accessor API / update(**kwargs) from generated values (unicode text, boundary "
+      "integers, three currencies, every language/script/region/country enumerated, locations in three input forms, 0..50 references, "
+      "optional signature envelope); oracles: from_bytes(to_bytes()) equality and byte-identical re-serialisation, read-back equals a "
+      "plain model, plain ClaimMessage.FromString shows the same values, envelope byte layout; generated v1/v0 legacy claims and "
+      "recorded real ones decode. URLs: grammar-generated valid spellings, a 36-kind negative catalogue, every forbidden code point at "
+      "every position of four URLs, random edits judged by a hand-written reference parser. Exploration level (finite enum sub-domains "
+      "are swept completely).",
+      "Plain parse uses the generated pb2 classes; don't-care classes (zero scalars, excess precision, reserved name characters) are "
+      "listed in the evidence assumptions; publishing from a file path is not exercised.")
